@@ -79,6 +79,15 @@ def cases(ctx, budget):
     for t in gen.fixture_texts():
         for size in (1, 2, 3, 4):
             out.append((size, t))
+    # depth: staircases far deeper than any document (a threshold in the indent stack shows only here), down in one step, in
+    # several, and saw-teeth at depth
+    for depth in (12, 33, 51, 64, 130, 300):
+        for unit in (1, 2, 4):
+            up = [' ' * (unit * i) + 'x%d' % i for i in range(depth)]
+            for tail in (['end'], [' ' * (unit * (depth // 2)) + 'mid', 'end'], [' ' * (unit * (depth - 2)) + 'a', ' ' * (unit * (depth - 1)) + 'b', 'end'],
+                         [' ' * (unit * i) + 'd%d' % i for i in range(depth - 2, -1, -3)]):
+                for size in (1, 2, 4):
+                    out.append((size, '\n'.join(up + tail) + '\n'))
     for i in range(ctx.n(3000, 100000) * budget):
         out.append((ctx.rng.choice([1, 2, 2, 3, 4]), gen.random_layout_text(ctx.rng, 10)))
     return out
